@@ -8,8 +8,11 @@ type Rule func(ctx *core.Ctx, r *core.Report)
 
 // Registry maps property ids to their rule sets.
 var Registry = map[string]Rule{
+	"C03": C03,
 	"C06": C06,
+	"C09": C09,
 	"C10": C10,
+	"C12": C12,
 	"C13": C13,
 	"C14": C14,
 	"C17": C17,
